@@ -388,9 +388,9 @@ class ParseAPI(object):
         Parse a public pair as a text SEC.
         Return a :class:`Key <pycoin.key.Key>` or None.
         """
-        pair = parse_colon_prefix(s)
-        if pair is not None and pair[0] == self._wif_prefix:
-            s = pair[1]
+        prefix = self._sec_prefix
+        if isinstance(prefix, str) and prefix and s.startswith(prefix):
+            s = s[len(prefix) :]
         try:
             sec = h2b(s)
             return self._network.keys.public(sec)
